@@ -10,7 +10,7 @@ readme = open(os.path.join(src, 'README.md')).read() if os.path.exists(os.path.j
 meta = dict(property=prop, origin='independent sub-agent given only the property text and a scratch worktree',
             needs_to_manifest=(re.sub(r'\s+', ' ', readme)[:1500]),
             confirmed=('CONFIRM: OK' in conf),
-            what_i_ran='vt/confirm_mutant.sh in a scratch worktree: git apply, cmake --build, full ctest (must pass), demo must fail with the change and pass without; then vt/mutant.sh <patch> %s on /repo (apply, ./check, revert)' % prop,
+            what_i_ran='vt/confirm_mutant.sh in a scratch worktree: git apply, cmake --build, full ctest (must pass), demo must fail with the change and pass without; then vt/mutant2.sh <patch> %s (the check compiles from a scratch source worktree of /repo HEAD with the patch applied, VT_REPO; /repo itself untouched)' % prop,
             confirm_summary=[l for l in conf.split('\n') if l.startswith('CONFIRM') or 'tests passed' in l],
             detected_by_check=detected, caught_by=caught)
 json.dump(meta, open(os.path.join(dst, 'meta.json'), 'w'), indent=1)
